@@ -5,7 +5,7 @@
     predict every API result, event, counter and half presence the implementation reports
     ([StreamSM.oracle] = [StreamSpec.spec_oracle]). *)
 From QV Require Import Lib.Tac Lib.Corr Model.FlowRecv Model.StreamSpec Model.StreamSM
-  Proofs.FlowRecvProofs Proofs.StreamSMProofs.
+  Proofs.FlowRecvProofs Proofs.StreamSMProofs Proofs.FinishedOnce.
 Open Scope Z_scope.
 
 (** * api_refines_spec (partial: receive half, results of stop and received_reset)
@@ -44,16 +44,60 @@ Theorem C11_finished_only_after_full_ack : forall id a b fin s,
 Proof. exact ack_finished. Qed.
 Print Assumptions C11_finished_only_after_full_ack.
 
-(** Full statements over all op sequences (not proved; checked by the oracle on every run). *)
-Definition count_event (e : list Z) (l : list (list Z)) : nat :=
-  length (filter (fun x => lz_eqb x e) l).
-Definition C11_finished_once_full : Prop :=
-  forall cfg i s (id : Z), reach_sm cfg i = Some s -> panic s = false ->
-    (* over the whole history (polled events + queue) at most one Finished per stream *)
-    Z.of_nat (count_event [4; id] (events s)) <= 1.
-Definition C11_concurrency_accounting_full : Prop :=
-  forall cfg i s d, reach_sm cfg i = Some s -> panic s = false -> (d = 0 \/ d = 1) ->
-    pget d (alloc s) = pget d (max_conc s) /\ 0 <= pget d (alloc s).
+(** Full statement over all op sequences (not proved; checked by the oracle on every run). *)
+(** * finished_once (all op sequences)
+    [g_fin s] is the ghost list of stream ids for which the model emitted [Finished] (it is
+    extended exactly where [ack_frame] pushes the event — the only place a Finished is pushed),
+    [g_reset s] the ids on which the application's reset() succeeded.  For every configuration and
+    every op sequence (application calls, frames, transmissions, acks and losses in any order):
+    Finished is emitted at most once per stream, never for a stream that was reset (neither before
+    nor after the reset), and the send half of a Finished stream is gone for good. *)
+Theorem C11_finished_once : forall sd mru mrb rw srw pmb pmu i s,
+  (sd = 0 \/ sd = 1) -> 0 <= mrb ->
+  reach_sm [0; sd; mru; mrb; rw; srw; pmb; pmu] i = Some s ->
+  NoDup (g_fin s) /\
+  (forall id, In id (g_reset s) -> ~ In id (g_fin s)) /\
+  (forall id, In id (g_fin s) -> alookup id (sendm s) = None).
+Proof. exact finished_once. Qed.
+Print Assumptions C11_finished_once.
+
+(** * concurrency_accounting
+    (1) For every configuration and op sequence the window of permitted remotely initiated
+        streams is full: [allocated_remote_count[dir] = max_concurrent_remote_count[dir]] — every
+        decrement is compensated at once by exactly one newly permitted stream.
+    (2) One [stream_freed] call in such a state raises [max_remote] of the stream's direction by
+        exactly one iff the stream is remotely initiated and its other half is already gone
+        (unidirectional: its single half); in every other case [max_remote] is unchanged — so a
+        stream stops counting exactly when both halves are terminal, not before.
+    Together with [C11_finished_once] (a send half that is gone never comes back; the same key
+    argument applies to [stream_freed]'s callers) this gives "never twice".  Not proved: that
+    the decrement never underflows (needs the counting invariant [allocated_remote_count =
+    number of remote streams with a live half]); kept as [C11_no_underflow_full]. *)
+Theorem C11_concurrency_accounting : forall sd mru mrb rw srw pmb pmu i s,
+  (sd = 0 \/ sd = 1) -> 0 <= mrb ->
+  reach_sm [0; sd; mru; mrb; rw; srw; pmb; pmu] i = Some s ->
+  forall d, pget d (alloc s) = pget d (max_conc s).
+Proof. exact alloc_full. Qed.
+Print Assumptions C11_concurrency_accounting.
+
+Theorem C11_stream_credit_exact : forall id (half : bool) s,
+  (side s = 0 \/ side s = 1) -> (forall d, pget d (alloc s) = pget d (max_conc s)) ->
+  let fully := negb (sid_init id =? side s) &&
+               ((sid_dir id =? 1) || (if half then negb (amem id (recvm s)) else negb (amem id (sendm s)))) in
+  max_remote (stream_freed id half s) =
+    if fully then pset (sid_dir id) (pget (sid_dir id) (max_remote s) + 1) (max_remote s)
+    else max_remote s.
+Proof. exact stream_freed_exact. Qed.
+Print Assumptions C11_stream_credit_exact.
+
+Definition C11_no_underflow_full : Prop :=
+  forall sd mru mrb rw srw pmb pmu i s, (sd = 0 \/ sd = 1) -> 0 <= mrb -> 0 <= mru ->
+    reach_sm [0; sd; mru; mrb; rw; srw; pmb; pmu] i = Some s ->
+    (* every remotely initiated stream with a live half is counted *)
+    forall d, (d = 0 \/ d = 1) ->
+      Z.of_nat (length (filter (fun idx =>
+         amem (mk_sid (1 - side s) d idx) (recvm s) || amem (mk_sid (1 - side s) d idx) (sendm s))
+         (map Z.of_nat (seq 0 (Z.to_nat (pget d (max_remote s))))))) = pget d (alloc s).
 
 (** * Refutation on the code before the repair (F2), witness replayed on the real code:
     unordered read; ordered read (IllegalOrderedRead); every later read reported ClosedStream
